@@ -769,6 +769,11 @@ class GenericPlainRegistry(Generic[QuantityT, UnitT], metaclass=RegistryMeta):
                 f"Parsing {name_or_alias} yield multiple results. Options are: {candidates!r}"
             )
 
+        name = prefix + unit_name
+        if prefix and name in self._units and name not in self._prefixed_units:
+            # A unit of that very name is defined (see get_name): its symbol.
+            return self._units[name].symbol
+
         return self._prefixes[prefix].symbol + self._units[unit_name].symbol
 
     def _get_symbol(self, name: str) -> str:
